@@ -42,17 +42,23 @@ ASSUMPTIONS = [
     "config, --config sections for a subcommand other than the chosen one, subcommand chosen by the config (C17)",
 ]
 EXHAUSTIVE = {"quick": False, "thorough": False}
-FINDING_CLASSES = {1: "reserved-param-names", 2: "private-optional-without-default"}
+# classes 1-4 belonged to the two findings of round 1 (repaired in /repo: 5bbebb1, 2f69862)
+FINDING_CLASSES = {5: "class-subcommand-param", 6: "nullish-str-default"}
 
 PARAM_NAMES = ["alpha", "beta", "gamma", "delta", "eps", "zeta", "theta", "iota", "kappa", "lam", "mu", "nu", "xi",
-               "rho", "sigma", "tau", "ups", "phi", "chi", "psi", "omega", "_hid", "_priv"]
+               "rho", "sigma", "tau", "ups", "phi", "chi", "psi", "omega", "_hid", "_priv",
+               # names that are also attributes of jsonargparse.Namespace (stored under a clash mark)
+               "items", "keys", "values", "get", "pop", "update", "clone", "as_dict"]
 FN_NAMES = ["run", "fit", "go", "build", "evalx", "load", "dump", "step", "plan", "scan", "push", "pull", "mark",
             "tidy", "sync", "wipe", "make", "send", "init", "stop"]
 CLS_NAMES = ["Tool", "Model", "Data", "Job", "Task", "Unit", "Node", "Pipe"]
 METH_NAMES = ["train", "test", "show", "apply", "reset", "walk"]
 GRP_KEYS = ["grp", "sub", "more", "misc"]
 WORDS = ["foo", "bar", "baz", "qux", "spam", "eggs", "abc", "xyzzy"]
-TYPES = ["int", "str", "bool", "list", ["opt", "int"], ["opt", "str"]]
+TYPES = ["int", "str", "bool", "list", ["opt", "int"], ["opt", "str"], ["opt", "list"]]
+# str DEFAULTS also take texts that a YAML reader would not leave a string (given values stay in WORDS: what a
+# text means for a type is the business of C02/C05, what a default means is C12's)
+DEFAULT_WORDS = WORDS + ["null", "~", "NULL", "5", "true", "", "1e3"]
 
 
 # ------------------------------------------------------------------------------------------------
@@ -92,6 +98,8 @@ def gen_sig(rng, reserved_ok, maxn=6, pool=None):
                 d = {"v": None}            # x: int = None
             else:
                 d = {"v": gen_value(rng, t)}
+                if isinstance(d["v"], str) and rng.random() < 0.25:
+                    d = {"v": rng.choice(DEFAULT_WORDS)}
         params.append({"n": nm, "kind": "pk" if i < n_pk else "ko", "ty": t, "d": d})
     # Python: positional-or-keyword parameters without default come first
     pk = [p for p in params if p["kind"] == "pk"]
@@ -106,8 +114,9 @@ def gen_fn(rng, names):
 
 def gen_cls(rng, names, mnames=None):
     init = gen_sig(rng, rng.random() < 0.3, maxn=4)
-    init = [p for p in init if p["n"] != "subcommand"]
     nm = rng.choice([0, 1, 1, 2, 2, 3])
+    if nm:      # with methods "subcommand" is the subcommands dest: every line is rejected (not modelled)
+        init = [p for p in init if p["n"] != "subcommand"]
     meths = []
     used = {p["n"] for p in init}
     for m in sorted(rng.sample(METH_NAMES, nm)):
@@ -384,6 +393,21 @@ def fixed_cases():
                          ["pos", "Job"], ["pos", 9], ["pos", "apply"], ["pos", 8], ["opt", "beta", 5]]})
     out.append({"as_pos": False, "components": {"form": "one", "c": c3},
                 "toks": [["opt", "alpha", 1], ["pos", "apply"], ["opt", "alpha", 2]]})
+    # parameter names that are Namespace attributes; Optional of a generic without default
+    k = {"k": "fn", "name": "load", "sig": [I("items", None, "list"), I("values", 3), I("keys", "q", "str", "ko"), I("get", None, ["opt", "list"], "ko")]}
+    out.append({"as_pos": True, "components": {"form": "one", "c": k}, "toks": [["pos", [1]], ["opt", "keys", "foo"], ["opt", "get", [4]]]})
+    out.append({"as_pos": True, "components": {"form": "one", "c": k}, "toks": [["cfg", [["items", {"leaf": [2]}], ["values", {"leaf": 9}]]]]})
+    c4 = {"k": "cls", "name": "Unit", "init": [I("update", False, "bool"), I("get", 1)], "meths": [["apply", [I("pop"), I("clone", "no", "str")]]]}
+    out.append({"as_pos": True, "components": {"form": "one", "c": c4},
+                "toks": [["opt", "update", True], ["opt", "get", 5], ["pos", "apply"], ["pos", 9], ["opt", "clone", "bar"]]})
+    out.append({"as_pos": True, "components": {"form": "one", "c": c4}, "toks": [["cfg", [["get", {"leaf": 2}], ["apply", {"sec": [["pop", {"leaf": 1}]]}]]], ["pos", "apply"]]})
+    # open findings: a methodless class with a `subcommand` parameter; an Optional[str] default that reads as null
+    c5 = {"k": "cls", "name": "Tool", "init": [I("subcommand", 1)], "meths": []}
+    out.append({"as_pos": True, "components": {"form": "one", "c": c5}, "toks": [["opt", "subcommand", 5]]})
+    out.append({"as_pos": True, "components": {"form": "one", "c": c5}, "toks": [["opt", "subcommand", 0]]})
+    n = {"k": "fn", "name": "run", "sig": [I("alpha", "null", ["opt", "str"])]}
+    out.append({"as_pos": True, "components": {"form": "one", "c": n}, "toks": []})
+    out.append({"as_pos": True, "components": {"form": "one", "c": n}, "toks": [["opt", "alpha", "foo"]]})
     for o in out:
         o.setdefault("cfg_via", "string")
     return out
